@@ -25,6 +25,7 @@ type c07Case struct {
 	N                  int        `json:"n,omitempty"`
 	GroupCols          []string   `json:"group_cols"`
 	UnselectedGroupCol bool       `json:"unselected_group_col"`
+	borderline         bool       // a HAVING atom sits within float rounding of its literal (verdict left open)
 	Distinct           bool       `json:"distinct"`
 	Items              []*c07Item `json:"items"`
 	Having             *c07Pred   `json:"having,omitempty"`
@@ -207,6 +208,10 @@ func execC07(ctx *core.Ctx, c *c07Case) {
 	// ---- reference ----
 	bs := c07Partition(c)
 	c07Evaluate(c, bs)
+	if c.borderline {
+		ctx.Inconclusive("a HAVING operand equals its literal up to float rounding")
+		return
+	}
 	byID := map[string]*c07Batch{}
 	expect := 0
 	type refOut struct {
